@@ -278,13 +278,17 @@ def residual_arms(ctx):
     """the evaluator arms whose handling of unknown operands is non-trivial (best-effort evaluation of the other operand, residual shapes);
     replayed natively by substituting every unknown and comparing the residual with the original expression"""
     from . import arms
-    keep = ('And', 'Or', 'eval_if', 'UnaryApp', 'HasAttr', 'get_attr', 'BinaryApp[In]', 'BinaryApp[Eq]')
+    keep = ('And', 'Or', 'eval_if', 'UnaryApp', 'HasAttr', 'get_attr', 'BinaryApp[In]', 'BinaryApp[Eq]', 'BinaryApp[GetTag]', 'BinaryApp[HasTag]')
     return [(n, f) for n, f in arms.families(ctx) if any(k in n for k in keep)]
 
 
 def run(ctx):
     ctx.run_families(families(ctx))
-    ctx.bounds += ['all 2^6 bucket-emptiness states; completions quantified at bucket granularity (some residual permit / forbid becomes satisfied or none does)',
+    from . import c13_extra
+    ctx.guarded('native completion battery', lambda: c13_extra.completions_battery(ctx, 'native completion battery', 'partial authorization vs completions', 'native completion battery'))
+    ctx.bounds += ['native completion battery (sampling): 13 policy sets with an unknown principal of a known type x 2 completions, 7 policy sets over 4 partial stores: a definite partial decision is the decision of every completion, '
+                   're-authorization with the completion agrees with authorization from scratch (decision and determining policies)',
+                   'all 2^6 bucket-emptiness states; completions quantified at bucket granularity (some residual permit / forbid becomes satisfied or none does)',
                    'replay: one policy per non-empty bucket, every binding of each unknown in {true, false, non-boolean}, reauthorize vs. authorization from scratch']
     ctx.assumptions += ['HashMap::is_empty / iter and iterator adaptors as logged terms; closure bodies executed from the MIR on one abstract member per bucket',
                         'construct_policy / Policy::from_when_clause_annos are logged constructors',
